@@ -330,16 +330,16 @@ class Collector:
                         sum(len(x) for x in case["idx"].values()), qsize(viol["query"]), canon(viol))
                 old = self.by_sig.get(viol["sig"])
                 if old is None or size < old[0]:
-                    self.by_sig[viol["sig"]] = (size, viol, case, v.get("msg", ""), (old[4] if old else 0) + 1)
+                    self.by_sig[viol["sig"]] = (size, viol, case, v.get("msg", ""), (old[4] if old else 0) + 1, model)
                 else:
-                    self.by_sig[viol["sig"]] = old[:4] + (old[4] + 1,)
+                    self.by_sig[viol["sig"]] = old[:4] + (old[4] + 1,) + old[5:]
 
-    def register(self, model):
+    def register(self, model=None):
         ctx = self.ctx
         for sig in sorted(self.by_sig):
-            size, viol, case, msg, count = self.by_sig[sig]
+            size, viol, case, msg, count, mdl = self.by_sig[sig]
             what = describe(viol, case["table"])
-            replay = make_replay(viol, case, model)
+            replay = make_replay(viol, case, mdl)
             for _ in range(count):
                 ctx.fail(sig, what, replay)
         for v, case in self.other:
@@ -395,6 +395,20 @@ def make_replay(viol, case, model):
 def run_replay(ctx, obj, binary_name="vh-iter"):
     """check.py --replay: re-execute a replay file's case on the current tree."""
     rep = obj.get("replay") or obj
+    if rep.get("tool") == "drive":
+        # a recorded random run: record the same seeded runs again on the current tree and let TLC judge them
+        from props import itertrace
+        a = rep["args"]
+        ctx.seed = a["seed"]
+        before = len(ctx.failures)
+        itertrace.validate(ctx, None, mode=a["mode"], runs=a["runs"], maxkeys=a["maxkeys"], calls=a["calls"], kinds=a["kinds"])
+        mine = [f for f in ctx.failures[before:] if (f.get("replay") or {}).get("run") == rep.get("run")]
+        if not mine:
+            print("replay: run %s of the recorded random runs is now accepted by TraceSortedIter" % rep.get("run"))
+            return 0
+        print("replay: still failing: key=%s\n  %s" % (mine[0]["key"], str(mine[0]["what"])[:1200]))
+        print("VIOLATION property=%s replay=%s" % (ctx.prop, ctx.replay))
+        return 1
     case = rep.get("case")
     if not case or "model" not in case:
         print("replay file has no executable case")
